@@ -395,13 +395,14 @@ inductive RecvVal where
   | text (utf8 : Bytes) | binary (bs : Bytes) | emptyStr
   deriving Repr, DecidableEq
 
-/-- `WebSocket.recv()`; `data.decode("utf-8")` fails exactly on ill-formed input. -/
+/-- `WebSocket.recv()`; `data.decode("utf-8")` fails exactly on ill-formed input; the UnicodeDecodeError is mapped to
+    WebSocketPayloadException when the source guards the call (`Gen.recvDecodeGuard`, a generated fact). -/
 def Conn.recv (c : Conn) : Except Exn RecvVal × Conn :=
   match c.recvData false with
   | (.error e, c) => (.error e, c)
   | (.ok (op, d), c) =>
     if op == Gen.opcodeText then
-      if validateUtf8Strict d then (.ok (.text d), c) else (.error (.internal "UnicodeDecodeError"), c)
+      if validateUtf8Strict d then (.ok (.text d), c) else (.error (if Gen.recvDecodeGuard then .payload else .internal "UnicodeDecodeError"), c)
     else if op == Gen.opcodeBinary then (.ok (.binary d), c)
     else (.ok .emptyStr, c)
 where
